@@ -268,6 +268,28 @@ func c02NewMux(st *c02Sec, stack string, short []int) (*c02Mux, error) {
 }
 
 func c02NewMuxOpt(st *c02Sec, stack string, short []int, adapt bool) (*c02Mux, error) {
+	m, err := c02NewMuxRaw(st, stack, short, adapt)
+	if err != nil {
+		return nil, err
+	}
+	// the accepting host: real multistream muxer + real newStreamHandler
+	m.host = &BasicHost{mux: msmux.NewMultistreamMuxer[protocol.ID](), negtimeout: DefaultNegotiationTimeout}
+	go func() {
+		for {
+			ms, err := m.srv.AcceptStream()
+			if err != nil {
+				return
+			}
+			s := &c02Stream{swarm.VerifC02NewStream(m.wrap(ms, true), m.n.Add(1))}
+			go m.host.newStreamHandler(s)
+		}
+	}()
+	return m, nil
+}
+
+// c02NewMuxRaw: the two yamux sessions only (go-libp2p's muxer wrapper over go-yamux, DefaultTransport), nobody
+// accepts streams: the caller uses m.cli.OpenStream / m.srv.AcceptStream itself.
+func c02NewMuxRaw(st *c02Sec, stack string, short []int, adapt bool) (*c02Mux, error) {
 	m := &c02Mux{got: map[protocol.ID]chan network.Stream{}, adapt: adapt}
 	m.ca, m.cb = memconn.Pair()
 	m.ca.SetReadChunks(short...)
@@ -303,18 +325,6 @@ func c02NewMuxOpt(st *c02Sec, stack string, short []int, adapt bool) (*c02Mux, e
 	if m.srv, err = yamux.DefaultTransport.NewConn(nb, true, nil); err != nil {
 		return nil, err
 	}
-	// the accepting host: real multistream muxer + real newStreamHandler
-	m.host = &BasicHost{mux: msmux.NewMultistreamMuxer[protocol.ID](), negtimeout: DefaultNegotiationTimeout}
-	go func() {
-		for {
-			ms, err := m.srv.AcceptStream()
-			if err != nil {
-				return
-			}
-			s := &c02Stream{swarm.VerifC02NewStream(m.wrap(ms, true), m.n.Add(1))}
-			go m.host.newStreamHandler(s)
-		}
-	}()
 	return m, nil
 }
 
